@@ -1,0 +1,296 @@
+//go:build verif
+
+package verifhook
+
+import (
+	"fmt"
+	"sort"
+
+	dtpb "github.com/google/fhir/go/proto/google/fhir/proto/r4/core/datatypes_go_proto"
+	bcrpb "github.com/google/fhir/go/proto/google/fhir/proto/r4/core/resources/bundle_and_contained_resource_go_proto"
+	"github.com/verily-src/fhirpath-go/internal/bundle"
+	"github.com/verily-src/fhirpath-go/internal/containedresource"
+	"github.com/verily-src/fhirpath-go/internal/element"
+	"github.com/verily-src/fhirpath-go/internal/element/extension"
+	"github.com/verily-src/fhirpath-go/internal/fhir"
+	"github.com/verily-src/fhirpath-go/internal/protofields"
+	"github.com/verily-src/fhirpath-go/internal/resource"
+	"google.golang.org/protobuf/proto"
+)
+
+// ---- resources by name, contained resources, bundles ----
+
+func NewResourceFromString(name string) (proto.Message, error) {
+	r, err := resource.NewFromString(name)
+	if err != nil {
+		return nil, err
+	}
+	return r, nil
+}
+func NewResource(name string) proto.Message { return resource.New(resource.Type(name)) }
+func ResourceTypeOf(m proto.Message) string {
+	return resource.TypeOf(m.(fhir.Resource)).String()
+}
+func WrapContained(m proto.Message) *bcrpb.ContainedResource {
+	if m == nil {
+		return containedresource.Wrap(nil)
+	}
+	return containedresource.Wrap(m.(fhir.Resource))
+}
+func UnwrapContained(cr *bcrpb.ContainedResource) proto.Message {
+	r := containedresource.Unwrap(cr)
+	if r == nil {
+		return nil
+	}
+	return r
+}
+func ContainedTypeOf(cr *bcrpb.ContainedResource) string {
+	return containedresource.TypeOf(cr).String()
+}
+func NewCollectionEntry(m proto.Message) *bcrpb.Bundle_Entry {
+	return bundle.NewCollectionEntry(m.(fhir.Resource))
+}
+func NewPostEntry(m proto.Message) *bcrpb.Bundle_Entry { return bundle.NewPostEntry(m.(fhir.Resource)) }
+func NewPutEntry(m proto.Message) *bcrpb.Bundle_Entry  { return bundle.NewPutEntry(m.(fhir.Resource)) }
+func UnwrapEntry(e *bcrpb.Bundle_Entry) proto.Message {
+	r := bundle.UnwrapEntry(e)
+	if r == nil {
+		return nil
+	}
+	return r
+}
+func NewCollectionBundle(entries ...*bcrpb.Bundle_Entry) *bcrpb.Bundle {
+	return bundle.NewCollection(bundle.WithEntries(entries...))
+}
+func UnwrapBundle(b *bcrpb.Bundle) []proto.Message {
+	var out []proto.Message
+	for _, r := range bundle.Unwrap(b) {
+		if r == nil {
+			out = append(out, nil)
+		} else {
+			out = append(out, r)
+		}
+	}
+	return out
+}
+
+// ---- the registries ----
+
+func ContainedFieldOf(name string) string {
+	f, ok := protofields.Resources[name]
+	if !ok || f.ContainedResource.Resource == nil {
+		return ""
+	}
+	return string(f.ContainedResource.Resource.Name())
+}
+func SnakeCaseOf(name string) string {
+	return string(protofields.TypeToContainedResourceOneOfFieldName(name))
+}
+func ElementTypeNames() []string {
+	var out []string
+	for k := range protofields.Elements {
+		out = append(out, k)
+	}
+	sort.Strings(out)
+	return out
+}
+func NewElement(name string) proto.Message {
+	f, ok := protofields.Elements[name]
+	if !ok {
+		return nil
+	}
+	return f.New()
+}
+func ExtensionFieldOf(name string) string {
+	f, ok := protofields.Elements[name]
+	if !ok || f.Extension.ValueX == nil {
+		return ""
+	}
+	return string(f.Extension.ValueX.Name())
+}
+
+// ---- extensions ----
+
+func ExtensionFromElement(uri string, el proto.Message) (*dtpb.Extension, error) {
+	if el == nil {
+		return extension.FromElement(uri, nil)
+	}
+	e, ok := el.(fhir.Element)
+	if !ok {
+		return nil, fmt.Errorf("verifhook: %T is not an element", el)
+	}
+	return extension.FromElement(uri, e)
+}
+
+// ExtensionNew calls the generic extension.New for the 49 value types.
+func ExtensionNew(uri string, el proto.Message) (*dtpb.Extension, bool) {
+	switch v := el.(type) {
+	case *dtpb.Base64Binary:
+		return extension.New(uri, v), true
+	case *dtpb.Boolean:
+		return extension.New(uri, v), true
+	case *dtpb.Canonical:
+		return extension.New(uri, v), true
+	case *dtpb.Code:
+		return extension.New(uri, v), true
+	case *dtpb.Date:
+		return extension.New(uri, v), true
+	case *dtpb.DateTime:
+		return extension.New(uri, v), true
+	case *dtpb.Decimal:
+		return extension.New(uri, v), true
+	case *dtpb.Id:
+		return extension.New(uri, v), true
+	case *dtpb.Instant:
+		return extension.New(uri, v), true
+	case *dtpb.Integer:
+		return extension.New(uri, v), true
+	case *dtpb.Markdown:
+		return extension.New(uri, v), true
+	case *dtpb.Oid:
+		return extension.New(uri, v), true
+	case *dtpb.PositiveInt:
+		return extension.New(uri, v), true
+	case *dtpb.String:
+		return extension.New(uri, v), true
+	case *dtpb.Time:
+		return extension.New(uri, v), true
+	case *dtpb.UnsignedInt:
+		return extension.New(uri, v), true
+	case *dtpb.Uri:
+		return extension.New(uri, v), true
+	case *dtpb.Url:
+		return extension.New(uri, v), true
+	case *dtpb.Uuid:
+		return extension.New(uri, v), true
+	case *dtpb.Address:
+		return extension.New(uri, v), true
+	case *dtpb.Age:
+		return extension.New(uri, v), true
+	case *dtpb.Annotation:
+		return extension.New(uri, v), true
+	case *dtpb.Attachment:
+		return extension.New(uri, v), true
+	case *dtpb.CodeableConcept:
+		return extension.New(uri, v), true
+	case *dtpb.Coding:
+		return extension.New(uri, v), true
+	case *dtpb.ContactPoint:
+		return extension.New(uri, v), true
+	case *dtpb.Count:
+		return extension.New(uri, v), true
+	case *dtpb.Distance:
+		return extension.New(uri, v), true
+	case *dtpb.Duration:
+		return extension.New(uri, v), true
+	case *dtpb.HumanName:
+		return extension.New(uri, v), true
+	case *dtpb.Identifier:
+		return extension.New(uri, v), true
+	case *dtpb.Money:
+		return extension.New(uri, v), true
+	case *dtpb.Period:
+		return extension.New(uri, v), true
+	case *dtpb.Quantity:
+		return extension.New(uri, v), true
+	case *dtpb.Range:
+		return extension.New(uri, v), true
+	case *dtpb.Ratio:
+		return extension.New(uri, v), true
+	case *dtpb.Reference:
+		return extension.New(uri, v), true
+	case *dtpb.SampledData:
+		return extension.New(uri, v), true
+	case *dtpb.Signature:
+		return extension.New(uri, v), true
+	case *dtpb.Timing:
+		return extension.New(uri, v), true
+	case *dtpb.ContactDetail:
+		return extension.New(uri, v), true
+	case *dtpb.Contributor:
+		return extension.New(uri, v), true
+	case *dtpb.DataRequirement:
+		return extension.New(uri, v), true
+	case *dtpb.Expression:
+		return extension.New(uri, v), true
+	case *dtpb.ParameterDefinition:
+		return extension.New(uri, v), true
+	case *dtpb.RelatedArtifact:
+		return extension.New(uri, v), true
+	case *dtpb.TriggerDefinition:
+		return extension.New(uri, v), true
+	case *dtpb.UsageContext:
+		return extension.New(uri, v), true
+	case *dtpb.Dosage:
+		return extension.New(uri, v), true
+	}
+	return nil, false
+}
+func ExtensionUnwrap(e *dtpb.Extension) proto.Message {
+	r := extension.Unwrap(e)
+	if r == nil {
+		return nil
+	}
+	return r
+}
+func ExtensionUpsert(target proto.Message, e *dtpb.Extension) {
+	extension.Upsert(target.(fhir.Extendable), e)
+}
+func ExtensionAppendInto(target proto.Message, es ...*dtpb.Extension) {
+	extension.AppendInto(target.(fhir.Extendable), es...)
+}
+func ExtensionOverwrite(target proto.Message, es ...*dtpb.Extension) {
+	extension.Overwrite(target.(fhir.Extendable), es...)
+}
+func ExtensionClear(target proto.Message) { extension.Clear(target.(fhir.Extendable)) }
+func ExtensionSetByURLString(target proto.Message, url string, vs ...*dtpb.String) {
+	extension.SetByURL(target.(fhir.Extendable), url, vs...)
+}
+func ExtensionSetByURLCoding(target proto.Message, url string, vs ...*dtpb.Coding) {
+	extension.SetByURL(target.(fhir.Extendable), url, vs...)
+}
+
+// ---- extraction ----
+
+type ElemPath struct {
+	Element proto.Message
+	Path    string
+}
+
+func extractWith[T proto.Message](res fhir.Resource) ([]ElemPath, []proto.Message, error, error) {
+	wp, err1 := element.ExtractAllWithPath[T](res)
+	var a []ElemPath
+	for _, e := range wp {
+		a = append(a, ElemPath{Element: e.Element, Path: e.FHIRPath})
+	}
+	all, err2 := element.ExtractAll[T](res)
+	var b []proto.Message
+	for _, e := range all {
+		b = append(b, e)
+	}
+	return a, b, err1, err2
+}
+
+// Extract calls element.ExtractAllWithPath and element.ExtractAll for one of the element kinds.
+func Extract(kind string, m proto.Message) (withPath []ElemPath, all []proto.Message, errWithPath, errAll error) {
+	res := m.(fhir.Resource)
+	switch kind {
+	case "Reference":
+		return extractWith[*dtpb.Reference](res)
+	case "Identifier":
+		return extractWith[*dtpb.Identifier](res)
+	case "Coding":
+		return extractWith[*dtpb.Coding](res)
+	case "Extension":
+		return extractWith[*dtpb.Extension](res)
+	case "String":
+		return extractWith[*dtpb.String](res)
+	case "DateTime":
+		return extractWith[*dtpb.DateTime](res)
+	case "CodeableConcept":
+		return extractWith[*dtpb.CodeableConcept](res)
+	case "Quantity":
+		return extractWith[*dtpb.Quantity](res)
+	}
+	return nil, nil, fmt.Errorf("verifhook: unknown kind %s", kind), nil
+}
